@@ -30,6 +30,8 @@ def run(chk):
     captured = []
 
     def post(itp, st, fr):
+        if getattr(itp, 'array_mode', False):
+            return      # the array twin of a call is compared through its results only
         if fr.fname == 'calculate_terms' and isinstance(st, ast.Assign) and len(st.targets) == 1 and isinstance(st.targets[0], ast.Name) \
                 and st.targets[0].id == 'dUdO_term':
             need = ['order_l', 'm', 'p', 'q', 'uni_multiplier', 'mode', 'mode_frequency', 'heating_term', 'dUdM_term', 'dUdw_term', 'dUdO_term', 'freq_sig']
@@ -48,6 +50,8 @@ def run(chk):
     g = X.atom('g', 'pos'); rho = X.atom('rho', 'pos'); mu = X.atom('mu', 'pos')
     K = 2 if chk.tier == 'quick' else 4
     d = X.Decider(seed=chk.seed, k=K)
+    from .common import ArrayTwin
+    twin = ArrayTwin(chk, 'R10.10', it, d)
 
     def eq(rule, inst, got, ref, where, dec=None):
         dec = dec or d
@@ -264,6 +268,7 @@ def run(chk):
     from .common import inplace_lint
     inplace_lint(chk, repo, 'R10.7', ['TidalPy/tides/modes/mode_manipulation.py', 'TidalPy/tides/dissipation.py', 'TidalPy/tides/love1d.py', 'TidalPy/toolbox/quick_tides.py'])
     chk.floor('R10.7', 4)
+    twin.finish(floor=4)
     nonnegativity(chk, repo, it)
     entry_point(chk, repo)
     chk.floor('R10.1', len(configs) * 2); chk.floor('R10.2', len(configs) * 2 * 2); chk.floor('R10.3', len(configs) * 2)
